@@ -148,6 +148,13 @@ pub fn check(v: &View) -> Vec<Violation> {
     let cen = census(v, 0);
     let stop_req = v.stop_requests(0).iter().map(|r| r.begin).min().unwrap_or(u64::MAX);
     let alive_until = a.dead.unwrap_or(u64::MAX).min(stop_req);
+    // as long as any strong handle exists the actor keeps running (nobody asked it to stop)
+    if let Some(d) = a.dead {
+        let ctx_stop = v.out.log.iter().any(|r| matches!(r.ev, Ev::CtxRes { aidx: 0, what: CtxOp::Stop, ok: true, .. }) && r.st.seq < d);
+        if !ctx_stop && stop_req > d && !v.fault_injected(a) && cen.certain_at(d) > 0 {
+            out.push(violation(P, "terminated-while-held", &format!("held={held}"), format!("the actor terminated at seq {d} although it was held by {held} ({} strong handle(s)) and nobody had asked it to stop", cen.certain_at(d))));
+        }
+    }
     // upgrades
     for o in v.ops.iter().filter(|o| matches!(o.inner, Op::Upgrade { .. }) && o.ended() && !o.skipped()) {
         if o.begin < alive_until && cen.certain_at(o.begin) > 0 && !v.fault_injected(a) {
